@@ -197,6 +197,76 @@ def store_readout(w):
         out["wf_types"] = sorted(t.key for t in sb.get_all_workflow_types())
     return out
 
+# ------------------------------------------------------------------ state backend alphabet 2: time-range iterators, runner contexts, workflow bookkeeping
+import pynenc.state_backend.base_state_backend as _bsb
+class HistoryClock(datetime):
+    """creation time of history records: frozen unless an op moves it (several records can share one instant)"""
+    t = datetime(2024, 5, 1, 12, 0, 0, tzinfo=UTC)
+    @classmethod
+    def now(cls, tz=None):
+        return HistoryClock.t
+_bsb.datetime = HistoryClock
+H0 = datetime(2024, 5, 1, 12, 0, 0, tzinfo=UTC)
+
+def store2_op(w, op):
+    sb = w.app.state_backend
+    if op in (0, 1):
+        inv = (w.ta if op == 0 else w.tb)(len(w.invs))          # registered at the current (frozen) history instant
+        w.invs.append(inv); w.alias[inv.invocation_id] = f"i{len(w.invs)-1}"
+        return "new"
+    if op == 2:
+        HistoryClock.t = HistoryClock.t + timedelta(microseconds=1000)   # a later change of the same invocation is a later instant
+        if not w.invs:
+            return None
+        return safe(lambda: w.app.orchestrator.set_invocation_status(w.invs[0].invocation_id, St.PENDING, w.ctx["r1"]))
+    if op == 3:
+        HistoryClock.t = HistoryClock.t + timedelta(seconds=1)
+        return None
+    if op == 4:
+        return safe(lambda: sb.store_runner_context(w.ctx["r1"]))
+    if op == 5:
+        return safe(lambda: sb.store_runner_context(runner_ctx("r2x")))
+    if op == 6:
+        if len(w.invs) >= 1:
+            return safe(lambda: sb.store_workflow_sub_invocation(w.invs[0].workflow.workflow_id, w.invs[-1].invocation_id))
+        return None
+    if op == 7:
+        if w.invs:
+            return safe(lambda: sb.store_workflow_run(w.invs[-1].workflow))
+        return None
+    if op == 8:
+        return safe(lambda: sb.purge())
+    return None
+
+def store2_readout(w):
+    sb = w.app.state_backend
+    lo, hi = H0 - timedelta(hours=1), H0 + timedelta(hours=1)
+    def hist(a, b, size):
+        return sorted((w.name(h.invocation_id), h.status_record.status.value) for batch in sb.iter_history_in_timerange(a, b, size) for h in batch)
+    def invs(a, b, size):
+        return sorted(w.name(i) for batch in sb.iter_invocations_in_timerange(a, b, size) for i in batch)
+    out = {
+        "hist_all_pages_of_2": safe(lambda: hist(lo, hi, 2)),
+        "hist_all_pages_of_1": safe(lambda: hist(lo, hi, 1)),
+        "hist_all_one_page": safe(lambda: hist(lo, hi, 100)),
+        "hist_first_instant_only": safe(lambda: hist(H0, H0, 2)),
+        "hist_after_first_second": safe(lambda: hist(H0 + timedelta(seconds=1), hi, 2)),
+        "invs_pages_of_2": safe(lambda: invs(lo, hi, 2)),
+        "invs_first_instant": safe(lambda: invs(H0, H0, 1)),
+        "runner_r1": safe(lambda: (sb.get_runner_context("r1") or None) and sb.get_runner_context("r1").runner_id),
+        "runners": safe(lambda: sorted(c.runner_id for c in sb.get_runner_contexts(["r1", "r2x", "zz"]))),
+        "runners_like_r": safe(lambda: sorted(c.runner_id for c in sb.get_matching_runner_contexts("r"))),
+        "wf_types": safe(lambda: sorted(t.key for t in sb.get_all_workflow_types())),
+        "wf_runs_all": safe(lambda: sorted(w.name(x.workflow_id) for x in sb.get_all_workflow_runs())),
+        "wf_runs_a": safe(lambda: sorted(w.name(x.workflow_id) for x in sb.get_workflow_runs(w.ta.task_id))),
+    }
+    if w.invs:
+        wid = w.invs[0].workflow.workflow_id
+        out["wf_sub"] = safe(lambda: w.names(sb.get_workflow_sub_invocations(wid)))
+        out["ids_by_wf"] = safe(lambda: w.names(sb.get_invocation_ids_by_workflow(workflow_id=wid)))
+        out["ids_by_type"] = safe(lambda: w.names(sb.get_invocation_ids_by_workflow(workflow_type_key=w.ta.task_id.key)))
+    return out
+
 # ------------------------------------------------------------------ trigger store alphabet
 def trig_op(w, op):
     t = w.app.trigger
@@ -267,7 +337,7 @@ def wg_readout(w):
     return {"blocking": w.names(o.get_blocking_invocations(10)), "n1": len(list(o.get_blocking_invocations(1))),
             "status": [o.get_invocation_status(i.invocation_id).value for i in w.invs]}
 
-ALPHABETS = {"orch": (orch_op, orch_readout, 14), "store": (store_op, store_readout, 12), "trig": (trig_op, trig_readout, 12), "wg": (wg_op, wg_readout, 12)}
+ALPHABETS = {"orch": (orch_op, orch_readout, 14), "store": (store_op, store_readout, 12), "store2": (store2_op, store2_readout, 9), "trig": (trig_op, trig_readout, 12), "wg": (wg_op, wg_readout, 12)}
 
 def differential(comp, ops):
     global LAST_DETAIL
@@ -276,18 +346,19 @@ def differential(comp, ops):
     for kind in ("mem", "sqlite"):
         reset_uuid()
         CLOCK.now = 1_700_000_000.0
+        HistoryClock.t = H0
         worlds.append(World(kind))
     log = []
     for op in ops:
         obs = []
         for w in worlds:
-            saved = CLOCK.now
+            saved, hsaved = CLOCK.now, HistoryClock.t
             r = op_fn(w, op)
-            after = CLOCK.now
+            after, hafter = CLOCK.now, HistoryClock.t
             obs.append((r, read_fn(w)))
             if w is worlds[0]:
-                CLOCK.now = saved      # both worlds see the same clock: replay the advance for the second one
-        CLOCK.now = after
+                CLOCK.now, HistoryClock.t = saved, hsaved      # both worlds see the same clocks: replay the advance for the second one
+        CLOCK.now, HistoryClock.t = after, hafter
         log.append(op)
         if obs[0] != obs[1]:
             diff = [k for k in obs[0][1] if obs[0][1].get(k) != obs[1][1].get(k)]
@@ -344,7 +415,7 @@ def run(ctx: Ctx) -> None:
     thorough = ctx.tier == "thorough"
     src = SRC
     conds = []
-    for comp, n in (("orch", 14), ("store", 12), ("trig", 12), ("wg", 12)):
+    for comp, n in (("orch", 14), ("store", 12), ("store2", 9), ("trig", 12), ("wg", 12)):
         for a in range(n):
             f = F.replace("__COMP__", comp).replace("__A__", str(a)).replace("__N__", str(n))
             if thorough:
@@ -359,7 +430,7 @@ def run(ctx: Ctx) -> None:
     ctx.functions_encoded += ["every public method of Mem/SQLite Orchestrator used by the alphabet (register, status change, queries by task/call/arguments/status, pagination, counts, filters, retries, heartbeats, active runners, recovery scans, auto-purge, wait graph)",
                               "Mem/SQLite StateBackend (results, exceptions, history, workflow data, invocation lookup, purge), Broker, ClientDataStore",
                               "Mem/SQLite Trigger store (claim_trigger_run, claim_trigger_execution (expired and live claims), store/get_last_cron_execution, emit_event, valid conditions, purge)"]
-    ctx.bounds = {"sequences": f"{4 if thorough else 3} operations per component alphabet (orchestrator 14 letters, stores 12, trigger store 12, wait graph 12), split by first letter",
+    ctx.bounds = {"sequences": f"{4 if thorough else 3} operations per component alphabet (orchestrator 14 letters, stores 12 + 9 (time-range iterators with shared instants, runner contexts, workflow bookkeeping), trigger store 12, wait graph 12), split by first letter",
                   "universe": "2 tasks, up to 3-4 invocations, 2 runners, controlled clock (advance 61 s; heartbeat timeout 60 s, pending limit 30 s, purge age 0)"}
     ctx.stubs += ["counter clock in both orchestrator modules", "sync history threads", "deterministic uuid4"]
     ctx.assumptions += ["'seeded random sequences of a few hundred operations' from the property text are sampling and are not part of this family's claim",
